@@ -73,12 +73,13 @@ Proof.
 Qed.
 
 (* the two blocks that can park at a pc awaiting a fresh right half *)
-Lemma ins_child_pc2 order o p c index (t : itree) l l1 fr tm0 (out : out) :
+(* generic in the computation [sepE] of the new separator: the adjacency fact does not depend on it *)
+Lemma ins_child_pc2_gen (sepE : K -> itree -> res K) order o p c index (t : itree) l l1 fr tm0 (out : out) :
   NoDup (ids t) ->
   match find p t, find c t with
   | Some (INode pi cs), Some child =>
     '(sep, _) <- get_nth index cs ;;
-    sep' <- (if index =? 0 then sm <- ismallest child ;; Ok (if ltb (key_of o) sm then key_of o else sep) else Ok sep) ;;
+    sep' <- sepE sep child ;;
     match isplit order fr child with
     | None =>
       t' <- upd p (fun _ => Ok (INode pi (set_nth index (sep', child) cs))) t ;;
@@ -113,6 +114,55 @@ Proof.
     rewrite set_nth_app, UpdLemmas.ins_nth_app1. apply adj_b_mid; congruence.
   - match type of H with bind ?e _ = _ => destruct e as [t'|] eqn:Hu; [cbn [bind] in H|discriminate H] end.
     apply noright_ok2. eapply ins_descend_noright; eauto.
+Qed.
+
+Lemma ins_child_pc2 order o p c index (t : itree) l l1 fr tm0 (out : out) :
+  NoDup (ids t) ->
+  match find p t, find c t with
+  | Some (INode pi cs), Some child =>
+    '(sep, _) <- get_nth index cs ;;
+    sep' <- (if index =? 0 then sm <- ismallest child ;; Ok (if ltb (key_of o) sm then key_of o else sep) else Ok sep) ;;
+    match isplit order fr child with
+    | None =>
+      t' <- upd p (fun _ => Ok (INode pi (set_nth index (sep', child) cs))) t ;;
+      ins_descend ltb o c t' l1 fr tm0
+    | Some (lft, rgt) =>
+      rs <- ismallest rgt ;;
+      t' <- upd p (fun _ => Ok (INode pi (ins_nth (index + 1) (rs, rgt) (set_nth index (sep', lft) cs)))) t ;;
+      if ltb (key_of o) rs then ins_descend ltb o c t' l1 (S fr) tm0
+      else mk t' l (S fr) tm0 (InsWantSplitRight o p c fr) []
+    end
+  | _, _ => Panic PIndex end = Ok out ->
+  pc_ok2_b (otr out) (opc out) = true.
+Proof.
+  exact (ins_child_pc2_gen
+           (fun sep child => if index =? 0 then sm <- ismallest child ;; Ok (if ltb (key_of o) sm then key_of o else sep) else Ok sep)
+           order o p c index t l l1 fr tm0 out).
+Qed.
+
+(* the block of the NEW model: the first separator is only ever lowered, [sep' = if key < sep then key else sep] *)
+Lemma ins_child_pc2' order o p c index (t : itree) l l1 fr tm0 (out : out) :
+  NoDup (ids t) ->
+  match find p t, find c t with
+  | Some (INode pi cs), Some child =>
+    '(sep, _) <- get_nth index cs ;;
+    sep' <- Ok (if index =? 0 then (if ltb (key_of o) sep then key_of o else sep) else sep) ;;
+    match isplit order fr child with
+    | None =>
+      t' <- upd p (fun _ => Ok (INode pi (set_nth index (sep', child) cs))) t ;;
+      ins_descend ltb o c t' l1 fr tm0
+    | Some (lft, rgt) =>
+      rs <- ismallest rgt ;;
+      t' <- upd p (fun _ => Ok (INode pi (ins_nth (index + 1) (rs, rgt) (set_nth index (sep', lft) cs)))) t ;;
+      if ltb (key_of o) rs then ins_descend ltb o c t' l1 (S fr) tm0
+      else mk t' l (S fr) tm0 (InsWantSplitRight o p c fr) []
+    end
+  | _, _ => Panic PIndex end = Ok out ->
+  pc_ok2_b (otr out) (opc out) = true.
+Proof.
+  exact (ins_child_pc2_gen
+           (fun sep _ => Ok (if index =? 0 then (if ltb (key_of o) sep then key_of o else sep) else sep))
+           order o p c index t l l1 fr tm0 out).
 Qed.
 
 Lemma ins_root_pc2 order o r (t : itree) l fr tm0 (out : out) :
@@ -331,7 +381,7 @@ Proof.
     blk_top HB. split; [apply noright_ok2; eapply ins_descend_noright; eauto | apply no3_ok3; eapply ins_descend_no3; eauto].
   - (* InsWantChild *)
     blk_top HB.
-    split; [eapply (ins_child_pc2 order o0 p c index (tr s)); [exact Hnd | exact HE] | n3 HE].
+    split; [eapply (ins_child_pc2' order o0 p c index (tr s)); [exact Hnd | exact HE] | n3 HE].
   - (* InsWantSplitRight *)
     blk_top HB. split; [apply noright_ok2; eapply ins_descend_noright; eauto | apply no3_ok3; eapply ins_descend_no3; eauto].
   - (* UpdCallback *)
